@@ -609,7 +609,7 @@ def r5_element_order(rep, src):
     for site in (PM + ':Deb822Element.convert_to_text', PM + ':Deb822FileElement.dump', PM + ':Deb822ParagraphElement.dump'):
         d = src.func(site)
         rep.saw_func(d)
-        dnode, _ = normalize.inline_helpers(d)
+        dnode, _ = normalize.inline_helpers(d, only=('convert_to_text',))
         verdict = _concat_of_all_tokens(dnode)
         if verdict is True:
             rep.ok('C01.R5', d.site, 'text = concatenation of all token texts', 'no filter, empty separator')
